@@ -7,7 +7,7 @@
 (* the state exposed by the safe API (position, buf(), buf_len, mark,      *)
 (* is_complete, is_at_end, io_error) must equal the specification's.       *)
 (***************************************************************************)
-EXTENDS ReaderAbs, Json, IOUtils, TLC
+EXTENDS ReaderAbs, TextScan, Json, IOUtils, TLC
 
 Rec == ndJsonDeserialize(IOEnv.TRACE)
 
@@ -37,6 +37,35 @@ TReset ==
 TCall ==
   /\ IsEv("call")
   /\ ACall(<<R.op, R.arg, FALSE>>)
+
+\* ---- scanning helpers of flussab::text called on the reader (C16, C13) ----------------------
+\* the input in front of the cursor as far as the source will ever deliver it
+Visible == SubSeq(stream, pos + 1, limit)
+
+\* As far as the reader is concerned a helper is request_byte_at_offset(Need): it may pull input
+\* only while the last byte its result depends on is neither buffered nor known to be absent.
+TScanCall ==
+  /\ IsEv("scall")
+  /\ LET k == ScanNeed(R.fn, Visible, R.off, R.pat)
+     IN  ACall(<<"need", k, FALSE>>)
+
+\* value returned by a digit scanner: [repr, neg, hex digits of the magnitude, end]
+DigitsMatch(r, exp) ==
+  /\ r.end = exp[4]
+  /\ r.some = exp[1]
+  /\ (exp[1] => (HexToDec(r.hex) = exp[3] /\ r.neg = exp[2]))
+
+TScanRet ==
+  /\ IsEv("sret")
+  /\ ~R.panic
+  /\ AReturn
+  /\ CASE R.fn \in {"tabs_or_spaces", "newline", "next_newline", "fixed"} ->
+             R.end = ScanEnd(R.fn, Visible, R.off, R.pat)
+       [] R.fn \in {"ascii_digits", "ascii_digits_multi"} ->
+             DigitsMatch(R, UDigits(Visible, R.off, R.ty))
+       [] R.fn \in {"signed_ascii_digits", "signed_ascii_digits_multi"} ->
+             DigitsMatch(R, SDigits(Visible, R.off, R.ty))
+  /\ PostMatches
 
 TSrc ==
   /\ IsEv("src")
@@ -75,7 +104,7 @@ TInit ==
   /\ pos = 0 /\ avail = 0 /\ mark = 0 /\ complete = FALSE /\ err = FALSE /\ chunk = 1
   /\ pend = Idle /\ ret = NoRet
 
-TNext == TReset \/ TCall \/ TSrc \/ TRet \/ TOp
+TNext == TReset \/ TCall \/ TSrc \/ TRet \/ TOp \/ TScanCall \/ TScanRet
 
 TSpec == TInit /\ [][TNext]_tvars
 
